@@ -45,8 +45,13 @@ def main():
             state['occ'][key] = state['occ'].get(key, -1) + 1
         occ = state['occ'].get(key, 0)
         log({'proc': state['proc'], 'step': name, 'occ': occ, 'when': when})
-        if fault and fault['proc'] == state['proc'] and fault['step'] == name and fault['occ'] == occ and fault['when'] == when:
-            fire(fault['kind'], f"{state['proc']}/{name}#{occ}/{when}")
+        if fault and fault['proc'] == state['proc'] and fault['step'] == name and fault['when'] == when:
+            if fault['kind'] == 'raise_persistent':
+                # the step is broken for good (disk full, unsupported input): every attempt from this occurrence on fails, retries included
+                if occ >= fault['occ']:
+                    fire('raise', f"{state['proc']}/{name}#{occ}/{when} (persistent)")
+            elif fault['occ'] == occ:
+                fire(fault['kind'], f"{state['proc']}/{name}#{occ}/{when}")
 
     def wrap(owner, attr, name=None):
         orig = getattr(owner, attr)
